@@ -374,6 +374,12 @@ func (e *Engine) evCall(c *ast.CallExpr, st *State) []Value {
 			if e.isSpecHelper(id) {
 				return []Value{{e.heapGet(st, ghCount, e.isort()), types.Typ[types.Int]}}
 			}
+		case "freshPtr":
+			// freshPtr(p): p is nil or points to an object allocated since the function (for a callee's contract: the call) began
+			if e.isSpecHelper(id) && e.entry != nil {
+				v := e.ev(c.Args[0], st)
+				return []Value{{or(eq(v.T, e.izero()), e.lt(e.entry.top, v.T)), types.Typ[types.Bool]}}
+			}
 		case "freshSlice":
 			// freshSlice(s): the backing array of s was allocated by the function under verification (or s is nil)
 			if e.isSpecHelper(id) && e.entry != nil {
